@@ -38,6 +38,18 @@ PROPS = {
          "protobuf marshalling of equal responses is byte-identical within one binary"],
         facts=["app"],
     ),
+    "C11": app(
+        "C11",
+        ["C11_invariant", "C11_accept", "C11_other_calls", "C11_one_vote", "C11_nonce_once", "C11_restart", "C11_started"],
+        "Theorems over every history from every valid genesis (Lean): the vote invariant holds on all reachable states; a "
+        "configuration is appended only by a vote that completes a quorum of threshold(current) distinct current keypers for "
+        "that identical configuration (larger index, non-decreasing activation, votes reset, fresh eon); one vote per sender "
+        "and round; each (sender, nonce) executes once; a DKG restart needs a failure quorum for the newest eon; a "
+        "configuration is marked started only on a block-seen quorum of the preceding set. The real app is compared with the "
+        "model on generated histories and monitored with an independent necessary-condition checker over the tx stream.",
+        ["a batch-config message carries fewer than 2^63 addresses (Sized)",
+         "the eon counter does not wrap around 2^64"],
+    ),
     "C12": app(
         "C12",
         ["C12_diff_apply", "C12_updates_sorted", "C12_removals_present", "C12_order_independent", "C12_live",
